@@ -99,12 +99,13 @@ Proof. exact f80_in_domain. Qed.
 (* ================================================================ the pinned tree (before the repairs) *)
 
 (* F12: with radius 2 the argument of asin in Albers' Reverse leaves [-1, 1] (Go: NaN) and the
-   latitude is wrong *)
+   latitude is wrong.  Witness: parallels 30/30, origin (0, 30), the origin itself (exact values;
+   Proofs/Carto_proofs.v also has the witness parallels 30/60, point (0, 45) by interval arithmetic) *)
 Theorem albers_inverse_refuted : exists c lon lat,
   alb_dom c lon lat /\
   alb_rev_arg_orig c (alb_fwd_x c lon lat) (alb_fwd_y c lon lat) < -1 /\
   alb_rev_lat_orig c (alb_fwd_x c lon lat) (alb_fwd_y c lon lat) <> lat.
-Proof. exact alb_orig_refuted_lemma. Qed.
+Proof. exact alb_orig_refuted_exact. Qed.
 Print Assumptions albers_inverse_refuted.
 
 (* F13: at Forward(centre), for every configuration, the latitude of the pinned Reverse contains the
@@ -126,10 +127,12 @@ Theorem orthographic_centre_refuted : forall c,
 Proof. exact or_orig_centre_refuted_lemma. Qed.
 Print Assumptions orthographic_centre_refuted.
 
-(* F80: atan instead of atan2 loses the longitude of in-domain points across the pole *)
+(* F80: atan instead of atan2 loses the longitude of in-domain points across the pole.  Witness:
+   centre (0, 60), point (180, 60), which comes back as longitude 0 (exact values; the proofs file
+   also has centre (10, 80), point (-160, 70) -> 20 by interval arithmetic) *)
 Theorem orthographic_atan_refuted : exists c lon lat,
   or_dom c lon lat /\ or_rev_lon_orig c (or_fwd_x c lon lat) (or_fwd_y c lon lat) <> lon.
-Proof. exact or_atan_refuted_lemma. Qed.
+Proof. exact or_atan_refuted_exact. Qed.
 Print Assumptions orthographic_atan_refuted.
 
 (* F81 changes nothing over the reals: R atan2(sin c, cos c) = R acos(cos c) *)
@@ -228,3 +231,31 @@ Theorem webmercator_north_up : forall c lon l1 l2, -90 < l1 -> l1 < l2 -> l2 < 9
   wm_fwd_y c lon l2 < wm_fwd_y c lon l1.
 Proof. exact wm_north_up_lemma. Qed.
 Print Assumptions webmercator_north_up.
+
+(* ================================================================ configurations reached by setter sequences *)
+(* Forward/Reverse of the model are functions of the configuration record alone, and the setters
+   are field overwrites: a later call of a setter erases an earlier one, different setters commute,
+   and every configuration of the same radius is reached by one call of each.  Hence the theorems
+   above hold for a projection value after ANY sequence of setter (and Forward/Reverse) calls, with
+   c = the last value given to each setter.  That the Go values have no other state is checked by
+   the history class of the harness (bit-identical to a new value configured directly). *)
+Theorem configuration_is_history_free :
+  (forall c l l', er_set_meridian (er_set_meridian c l) l' = er_set_meridian c l') /\
+  (forall c p p', er_set_parallels (er_set_parallels c p) p' = er_set_parallels c p') /\
+  (forall c l p, er_set_meridian (er_set_parallels c p) l = er_set_parallels (er_set_meridian c l) p) /\
+  (forall c l l', sn_set_meridian (sn_set_meridian c l) l' = sn_set_meridian c l') /\
+  (forall c l l', lc_set_meridian (lc_set_meridian c l) l' = lc_set_meridian c l') /\
+  (forall c l p l' p', cn_set_origin (cn_set_origin c l p) l' p' = cn_set_origin c l' p') /\
+  (forall c a b a' b', cn_set_parallels (cn_set_parallels c a b) a' b' = cn_set_parallels c a' b') /\
+  (forall c l p a b, cn_set_origin (cn_set_parallels c a b) l p = cn_set_parallels (cn_set_origin c l p) a b) /\
+  (forall c l p l' p', az_set_center (az_set_center c l p) l' p' = az_set_center c l' p').
+Proof. exact setters_lemma. Qed.
+Print Assumptions configuration_is_history_free.
+
+Theorem configuration_reachable :
+  (forall c c', er_R c = er_R c' -> er_set_parallels (er_set_meridian c (er_lon0 c')) (er_lat1 c') = c') /\
+  (forall c c', cn_R c = cn_R c' ->
+     cn_set_parallels (cn_set_origin c (cn_lon0 c') (cn_lat0 c')) (cn_lat1 c') (cn_lat2 c') = c') /\
+  (forall c c', az_R c = az_R c' -> az_set_center c (az_lon0 c') (az_lat0 c') = c').
+Proof. exact setters_reach_lemma. Qed.
+Print Assumptions configuration_reachable.
